@@ -445,6 +445,9 @@ func (b *Broker) HeldCount() int {
 	return len(b.Held)
 }
 
+// HeldCountLocked is HeldCount with Mu held.
+func (b *Broker) HeldCountLocked() int { return len(b.Held) }
+
 // Alive tells whether bytes can still be delivered on the connection.
 func (c *Conn) Alive() bool {
 	c.w.Mu.Lock()
